@@ -633,6 +633,54 @@ pub fn eval_c13(st: &State) -> Eval {
         }
         h.u64(sym.len() as u64);
         h.u64(nonsym.len() as u64);
+        // (6) the public building block of the conversion: `build_voronoi_cells` fills one face vector per generator;
+        // their concatenation in index order is the stored face list (bitwise), the returned cells carry the stored
+        // values; `into_faces` hands out exactly `faces()`.
+        e.transitions += 1;
+        match guarded(|| {
+            let mut per_cell: Vec<Vec<meshless_voronoi::VoronoiFace>> = vec![vec![]; n];
+            let cells = integ.build_voronoi_cells(&mut per_cell);
+            (cells, per_cell)
+        }) {
+            Err(p) => panic_issue(&mut e, check, st, &case, &extra, &p, "VoronoiIntegrator::build_voronoi_cells"),
+            Ok((cells, per_cell)) => {
+                if cells.len() != n {
+                    e.issue("build_voronoi_cells-count", &case, format!("{} cells for {} generators", cells.len(), n), rp());
+                } else {
+                    for i in 0..n {
+                        let (c, d) = (&cells[i], &direct.cells()[i]);
+                        if !bits_eq(c.loc(), d.loc()) || !bits_eq(c.centroid(), d.centroid()) || c.volume().to_bits() != d.volume().to_bits() || c.safety_radius().to_bits() != d.safety_radius().to_bits() {
+                            e.issue("build_voronoi_cells-vs-stored", &case, format!("cell {}: volume {:e} vs stored {:e}", i, c.volume(), d.volume()), rp());
+                            break;
+                        }
+                        if !active(i) && !per_cell[i].is_empty() {
+                            e.issue("build_voronoi_cells-faces-of-unconstructed-cell", &case, format!("cell {}: {} faces", i, per_cell[i].len()), rp());
+                        }
+                        if per_cell[i].iter().any(|f| f.left() != i) {
+                            e.issue("build_voronoi_cells-face-in-wrong-slot", &case, format!("slot {} holds a face whose left cell is another one", i), rp());
+                        }
+                    }
+                    let flat: Vec<&meshless_voronoi::VoronoiFace> = per_cell.iter().flatten().collect();
+                    if flat.len() != direct.faces().len() {
+                        e.issue("build_voronoi_cells-face-count", &case, format!("{} faces, {} stored", flat.len(), direct.faces().len()), rp());
+                    } else if let Some(k) = flat.iter().zip(direct.faces().iter()).position(|(f, g)| {
+                        f.left() != g.left() || f.right() != g.right() || !opt_bits_eq(f.shift(), g.shift()) || f.area().to_bits() != g.area().to_bits() || !bits_eq(f.centroid(), g.centroid()) || !bits_eq(f.normal(), g.normal())
+                    }) {
+                        e.issue("build_voronoi_cells-faces-vs-stored", &case, format!("position {}: ({}, {:?}) vs stored ({}, {:?})", k, flat[k].left(), flat[k].right(), direct.faces()[k].left(), direct.faces()[k].right()), rp());
+                    }
+                }
+            }
+        }
+        match guarded(|| Voronoi::from(&integ).into_faces()) {
+            Err(p) => panic_issue(&mut e, check, st, &case, &extra, &p, "Voronoi::into_faces"),
+            Ok(fs) => {
+                if fs.len() != direct.faces().len()
+                    || fs.iter().zip(direct.faces().iter()).any(|(f, g)| f.left() != g.left() || f.right() != g.right() || !opt_bits_eq(f.shift(), g.shift()) || f.area().to_bits() != g.area().to_bits() || !bits_eq(f.centroid(), g.centroid()))
+                {
+                    e.issue("into_faces-vs-faces", &case, format!("{} faces handed out, {} stored", fs.len(), direct.faces().len()), rp());
+                }
+            }
+        }
         // (5) 3D: with faces vs without faces, to tolerance
         if st.dim == 3 {
             e.transitions += 1;
